@@ -58,6 +58,15 @@ def model_line(op: dict):
         by = op.get("by", "key")
         v = "x" + op["key"] if by == "key" else hx(op["sri"].encode())
         return " ".join(["extract", o, _fl(op), by, "t" if op.get("checked", True) else "f", v, op["to"]])
+    if o == "link_to":
+        return " ".join(["link_to", _fl(op), opt(op.get("key"), lambda k: "x" + k), op["target"]])
+    if o == "lopen":
+        return " ".join(["lopen", _fl(op), str(op["l"]), "t" if op.get("plain") else "f", opt(op.get("key"), lambda k: "x" + k)]
+                        + _wopts(op) + [op["target"]])
+    if o == "lchunk":
+        return f"lchunk {op['l']} {op['n']}"
+    if o in ("lcommit", "ldrop"):
+        return f"{o} {op['l']}"
     if o == "clear":
         return f"clear {_fl(op)}"
     if o == "list":
